@@ -1083,7 +1083,7 @@ impl TDigestView<'_> {
                 return Some(if value == self.min {
                     0.5 / centroids_weight
                 } else {
-                    (1. + (((value - self.min) / (first_mean - self.min))
+                    (1. + (fraction_between(self.min, first_mean, value)
                         * ((self.centroids[0].weight() / 2.) - 1.)))
                         / centroids_weight
                 });
@@ -1099,7 +1099,7 @@ impl TDigestView<'_> {
                     1. - (0.5 / centroids_weight)
                 } else {
                     1.0 - ((1.0
-                        + (((self.max - value) / (self.max - last_mean))
+                        + (fraction_between(self.max, last_mean, value)
                             * ((self.centroids[num_centroids - 1].weight() / 2.) - 1.)))
                         / centroids_weight)
                 });
@@ -1141,10 +1141,20 @@ impl TDigestView<'_> {
         weight_delta += self.centroids[upper].weight() / 2.;
         Some(
             if self.centroids[upper].mean - self.centroids[lower].mean > 0. {
-                (weight_below
-                    + (weight_delta * (value - self.centroids[lower].mean)
-                        / (self.centroids[upper].mean - self.centroids[lower].mean)))
-                    / centroids_weight
+                let span = self.centroids[upper].mean - self.centroids[lower].mean;
+                let offset = weight_delta * (value - self.centroids[lower].mean);
+                let part = if span.is_finite() && offset.is_finite() {
+                    offset / span
+                } else {
+                    // means of opposite sign near f64::MAX: the differences overflow
+                    weight_delta
+                        * fraction_between(
+                            self.centroids[lower].mean,
+                            self.centroids[upper].mean,
+                            value,
+                        )
+                };
+                (weight_below + part) / centroids_weight
             } else {
                 (weight_below + weight_delta / 2.) / centroids_weight
             },
@@ -1174,11 +1184,11 @@ impl TDigestView<'_> {
         }
         let first_weight = self.centroids[0].weight();
         if first_weight > 1. && weight < first_weight / 2. {
-            return Some(
-                self.min
-                    + (((weight - 1.) / ((first_weight / 2.) - 1.))
-                        * (self.centroids[0].mean - self.min)),
-            );
+            return Some(interpolate(
+                self.min,
+                self.centroids[0].mean,
+                (weight - 1.) / ((first_weight / 2.) - 1.),
+            ));
         }
         let last_weight = self.centroids[num_centroids - 1].weight();
         if last_weight > 1. && (centroids_weight - weight <= last_weight / 2.) {
@@ -1187,11 +1197,11 @@ impl TDigestView<'_> {
                 // point weight = W - 1, where the interpolation below would be 0 / 0
                 return Some(self.centroids[num_centroids - 1].mean);
             }
-            return Some(
-                self.max
-                    - (((centroids_weight - weight - 1.) / ((last_weight / 2.) - 1.))
-                        * (self.max - self.centroids[num_centroids - 1].mean)),
-            );
+            return Some(interpolate(
+                self.max,
+                self.centroids[num_centroids - 1].mean,
+                (centroids_weight - weight - 1.) / ((last_weight / 2.) - 1.),
+            ));
         }
 
         // interpolate between extremes
@@ -1362,8 +1372,34 @@ mod scale_function {
 }
 
 const fn weighted_average(x1: f64, w1: f64, x2: f64, w2: f64) -> f64 {
+    let sum = x1 * w1 + x2 * w2;
+    let average = if sum.is_finite() {
+        sum / (w1 + w2)
+    } else {
+        // magnitudes near f64::MAX: weigh before multiplying
+        x1 * (w1 / (w1 + w2)) + x2 * (w2 / (w1 + w2))
+    };
     // rounding must not take the result outside [x1, x2] (e.g. 0.1 averaged with 0.1)
-    ((x1 * w1 + x2 * w2) / (w1 + w2))
-        .max(x1.min(x2))
-        .min(x1.max(x2))
+    average.max(x1.min(x2)).min(x1.max(x2))
+}
+
+/// `(value - from) / (to - from)`, also when the differences overflow (operands of opposite sign
+/// near `f64::MAX`): halving every operand first is exact and leaves the quotient unchanged.
+fn fraction_between(from: f64, to: f64, value: f64) -> f64 {
+    let span = to - from;
+    if span.is_finite() {
+        (value - from) / span
+    } else {
+        (value / 2. - from / 2.) / (to / 2. - from / 2.)
+    }
+}
+
+/// `from + t * (to - from)`, also when `to - from` overflows.
+fn interpolate(from: f64, to: f64, t: f64) -> f64 {
+    let span = to - from;
+    if span.is_finite() {
+        from + t * span
+    } else {
+        from * (1. - t) + to * t
+    }
 }
